@@ -4,6 +4,7 @@ import TypifyModel.Model.Builder
 import TypifyModel.Model.Api
 import TypifyModel.Model.Conv
 import TypifyModel.Model.RoundTrip
+import TypifyModel.Model.Contain
 import TypifyModel.Driver.SchemaJson
 import TypifyModel.Generated.Derives
 import TypifyModel.Driver.IrJson
@@ -131,6 +132,11 @@ def evalOp (c : Case) (op tyName payload : String) : String :=
            | some true => "true"
            | some false => "false"
            | none => "fuel")
+    | "declared" =>
+      -- hypothesis of C03.rt_contains for this instance: only declared members, wire-shaped, no repeated key
+      (match parseJson payload with
+       | none => "badjson"
+       | some j => if Contain.declared σ fuel t j then "true" else "false")
     | "rtok" =>
       -- hypothesis of C03.de_se_de for this type: the reachable entries satisfy `entryOkB`
       let S := reachable σ t
